@@ -1,5 +1,6 @@
 import HpxVerif.Lemmas.BmocAnd
 import HpxVerif.Lemmas.BmocEnc
+import HpxVerif.Lemmas.BmocNot
 
 /-!
 # C08 — BMOC operators follow the documented three-valued semantics with partial flags
@@ -9,10 +10,11 @@ deep as every cell (`WF D l`: depths `≤ D`, intervals increasing and pairwise 
 arbitrary flags, be packed or not, and have different `depth_max` (the operator model decodes each operand with its
 own `depth_max` and encodes the result with the larger one, as the code does).
 
-Proved here for all pairs of well-formed operands: `and` (pointwise minimum, result well formed).
-`not`, `or`, `xor`: the executable model mirrors the code loop by loop and is tied to it by the correspondence check
-(exhaustive one-level universe, sampled two-level universe, random deep trees); their `*_sem` theorems are stated
-below as open statements and are not counted as obligations until proved.
+Proved here for all (pairs of) well-formed operands: `and` (pointwise minimum, result well formed) and **`not`
+(`not3_sem`: absent ↔ full, partial kept; result well formed and in range; every produced cell is full or an unchanged
+partial cell of the operand)**.  `or`, `xor`: the executable model mirrors the code loop by loop and is tied to it by the
+correspondence check (exhaustive one-level universe, sampled two-level universe, random deep trees); their `*_sem`
+theorems are open statements and are not counted as obligations until proved.
 -/
 
 namespace Hpx.C08
@@ -36,5 +38,21 @@ example : WF 2 [⟨0, 0, false⟩, ⟨1, 4, true⟩] ∧ WF 2 [⟨1, 1, true⟩,
     andCells [⟨0, 0, false⟩, ⟨1, 4, true⟩] [⟨1, 1, true⟩, ⟨2, 16, false⟩, ⟨2, 17, true⟩]
       = [⟨1, 1, false⟩, ⟨2, 16, false⟩, ⟨2, 17, true⟩] := by
   refine ⟨?_, ?_, by simp [andCells]⟩ <;> simp [WF, hi, lo]
+
+/-- **`not`, three-valued**: absent ↔ full, partial stays partial, for every well-formed in-range BMOC cell list of depth
+    `≤ 29` and every cell `x` of the sphere; the result is well formed and in range -/
+theorem not3_sem (D : Nat) (hD : D ≤ 29) (a : List Cell) (ha : WF D a) (hr : ∀ c ∈ a, InR c) (x : Nat)
+    (hx : x < 12 * 4 ^ D) : stOf D (notCells a) x = Tri.not (stOf D a x) :=
+  (notCells_spec D hD a ha hr).1 x hx
+
+theorem not3_wf (D : Nat) (hD : D ≤ 29) (a : List Cell) (ha : WF D a) (hr : ∀ c ∈ a, InR c) :
+    WF D (notCells a) ∧ ∀ c ∈ notCells a, InR c :=
+  ⟨(notCells_spec D hD a ha hr).2.1, (notCells_spec D hD a ha hr).2.2⟩
+
+/-- every cell produced by `not` is full, or is a partial cell of the operand kept unchanged -/
+theorem not3_flags (a : List Cell) (c : Cell) (hc : c ∈ notCells a) : c.full = true ∨ (c ∈ a ∧ c.full = false) :=
+  mem_notCells_flag a c hc
+
+theorem not_table : Tri.not .abs = .full ∧ Tri.not .part = .part ∧ Tri.not .full = .abs := ⟨rfl, rfl, rfl⟩
 
 end Hpx.C08
